@@ -12,7 +12,7 @@ Three layers (design.d/C07.md):
     parser + planners (harness logqlsql); the SQL text is parsed back into the Sql.v tree
     (harness/sqlparse, validated by render(tree) = text), evaluated by the extracted SqlEval over small
     databases built from the query's own strings (harness logqlsem; regexp / ParseFloat tables from the
-    real Go libraries), and the boolean spec oracle sem_b (= logql_sem) judges the rows. A wrong answer
+    real Go libraries), and the boolean spec oracle sem3_b (= logql_sem3) judges the rows. A wrong answer
     inside the guards is a VIOLATION with (query, ctx, db, expected, got) as replay; outside the guards
     it must coincide with the model's (proved) behaviour and is reported as the recorded finding.
 """
@@ -127,7 +127,7 @@ def eval_sem(ck, name, cases, recases=None):
         if p[0] == "C":
             res[int(p[1])] = {"fragment": p[2] == "1", "width": p[3] == "1", "ctx_ok": p[4] == "1", "text_ok": p[5] == "1",
                               "model_sel": p[6] == "1", "wrefs": p[7] == "1", "fragment2": p[8] == "1",
-                              "model_text": len(p) > 9 and p[9] == "1", "dbs": []}
+                              "model_text": len(p) > 9 and p[9] == "1", "fragment3": len(p) > 10 and p[10] == "1", "dbs": []}
         elif p[0] == "D":
             res[int(p[1])]["dbs"].append({"db_ok": p[3] == "1", "absent": p[4] == "1", "oracle": p[5] == "1",
                                           "impl": int(p[6]), "rev": int(p[7]), "model": int(p[8]), "same": p[9] == "1",
@@ -174,6 +174,18 @@ def run_semantic(ck, text_cases, recases=None):
     if not ok:
         ck.obligation("failing-input search model builds", False, out[-1500:])
         return
+    # the database builder on queries with non-ASCII values (round 5: regression of the thorough-tier db_ok failure)
+    st_f = os.path.join(ck.work, "dbselftest.jsonl")
+    rc, out = ck.go_run("logqlsem", ["--mode", "dbselftest", "--seed", ck.seed, "--n", ck.n(150, 3000), "--out", st_f])
+    st = [json.loads(l) for l in open(st_f)] if rc == 0 else []
+    st_bad = [r for r in st if r.get("bad")]
+    ck.obligation("database builder of the failing-input search on queries with non-ASCII values: one label set per fingerprint (byte by byte), "
+                  "distinct label names, every string UTF-8 (the JSON replay carries the evaluated database), a series row for every sample "
+                  "(%d queries, %d databases, %d non-ASCII label values)" % (len(st), sum(r["dbs"] for r in st), sum(r["non_ascii_values"] for r in st)),
+                  rc == 0 and st and not st_bad and all(r["non_ascii_values"] > 0 for r in st),
+                  out[-500:] if rc != 0 else "; ".join("%s: %s" % (r["query"], r["bad"]) for r in st_bad[:2]))
+    ck.extra.setdefault("input_distribution", {})["database_builder_selftest (non-ASCII queries)"] = {
+        "queries": len(st), "databases": sum(r["dbs"] for r in st), "non_ascii_label_values": sum(r["non_ascii_values"] for r in st)}
     n = ck.n(260, 4000)
     ndb = ck.n(5, 10)
     gen = os.path.join(ck.work, "sem_gen.jsonl")
@@ -241,7 +253,7 @@ def run_semantic(ck, text_cases, recases=None):
         c = byid[cid]
         if not v["ctx_ok"]:
             continue
-        in_thm = v["fragment"] or v["fragment2"]
+        in_thm = v["fragment"] or v["fragment2"] or v["fragment3"]
         dev = None if in_thm else stage_deviation(c.get("stages"))
         if not v["text_ok"]:
             not_text_ok.append(c)
@@ -264,7 +276,7 @@ def run_semantic(ck, text_cases, recases=None):
                     pc[1] += 1 if 0 < d["nwant"] < d["nsamples"] else 0
                     pc[2] += 1 if d["nwant"] > 0 else 0
                 if d["model"] != 0:
-                    machinery.append((c, k, "the model's SELECT is not the reference answer inside the guards (contradicts logql_log_partial[_parsers]): verdict %d" % d["model"]))
+                    machinery.append((c, k, "the model's SELECT is not the reference answer inside the guards (contradicts logql_log_correct_all): verdict %d" % d["model"]))
             bad = d["impl"] == 1 or d["rev"] == 1
             if not bad and d["impl"] == 2 and (guards or outside_ok):
                 undecided.append((c, k))
@@ -272,7 +284,7 @@ def run_semantic(ck, text_cases, recases=None):
                 continue
             rep = {"property": "C07", "kind": "the SQL of the implementation does not return the reference answer",
                    "query": c["query"], "ctx": c["ctx"], "db": db, "expected": d.get("want"), "got": d.get("got"),
-                   "expected_is": ("every matching line (model/LogqlSem.v log_rows2); with ctx.limit = L > 0 the answer must be some top-L subset of it in the query direction"
+                   "expected_is": ("every matching line (model/LogqlSem.v log_rows3; behind a line_format the line is the executed template); with ctx.limit = L > 0 the answer must be some top-L subset of it in the query direction"
                                    if c["ctx"].get("finalize", True) else
                                    "Plan(script, false), the statement that feeds the in-process engine: EVERY matching line whatever ctx.limit says, in timestamp order of the query direction"),
                    "sql": c["sql"][0], "guards": {"width<=63": v["width"], "absent_guard": d["absent"], "oracle_ok": d["oracle"]},
@@ -286,16 +298,16 @@ def run_semantic(ck, text_cases, recases=None):
     unbound = [byid[i]["query"] for i, v in res.items() if not v["wrefs"]]
     ck.obligation("every WithRef of the model's SELECT carries the query that the WITH list binds to its alias (%d plans)" % len(res),
                   not unbound, "; ".join(unbound[:3]))
-    off_text = [byid[i] for i, v in res.items() if v["ctx_ok"] and (v["fragment"] or v["fragment2"]) and not v["model_text"]]
+    off_text = [byid[i] for i, v in res.items() if v["ctx_ok"] and (v["fragment"] or v["fragment2"] or v["fragment3"]) and not v["model_text"]]
     ck.obligation("the planner model's SQL is the implementation's SQL, byte for byte, on every fragment case of the semantic search "
                   "(%d cases: regexp stages, relabelling orders, cluster-inlined and Plan(script,false) texts that the general generator does not emit)"
-                  % sum(1 for v in res.values() if v["ctx_ok"] and (v["fragment"] or v["fragment2"])),
+                  % sum(1 for v in res.values() if v["ctx_ok"] and (v["fragment"] or v["fragment2"] or v["fragment3"])),
                   not off_text, "%d differ; first: %s" % (len(off_text), off_text[0]["query"] if off_text else ""))
     if off_text and not getattr(ck, "sql_mismatch_cases", None):
         ck.sql_mismatch_cases = [{"query": c["query"], "ctx": c["ctx"], "diff": "model text differs from the implementation's (semantic-search case)"} for c in off_text[:20]]
     ck.obligation("failing-input search: render(prep(sqlparse(SQL))) = SQL on every fragment case (%d cases)" % len(res),
                   not not_text_ok, "; ".join(c["query"] for c in not_text_ok[:3]))
-    ck.obligation("failing-input search machinery: generated databases satisfy db_ok; the extracted model agrees with logql_log_partial / logql_log_partial_parsers on %d guarded evaluations" % theorem_evals,
+    ck.obligation("failing-input search machinery: generated databases satisfy db_ok; the extracted model agrees with logql_log_partial / logql_log_partial_parsers / logql_log_line_format on %d guarded evaluations" % theorem_evals,
                   not machinery, "; ".join("%s db#%d: %s" % (c["query"], k, why) for c, k, why in machinery[:3]))
     ck.obligation("the implementation's SQL evaluates inside the modelled ClickHouse subset on every guarded database",
                   not undecided, "; ".join("%s db#%d" % (c["query"], k) for c, k in undecided[:3]))
@@ -306,7 +318,7 @@ def run_semantic(ck, text_cases, recases=None):
                 r["query"], json.dumps(r["db"]["series"])[:160], len(r["expected"] or []), len(r["got"]) if r["got"] is not None else "-"))
         else:
             violations += reps
-    ck.obligation("spec oracle sem_b accepts the rows of the implementation's SQL on every guarded (query, ctx, database)",
+    ck.obligation("spec oracle sem3_b accepts the rows of the implementation's SQL on every guarded (query, ctx, database)",
                   not violations, "%d wrong answers; first: %s" % (len(violations), violations[0]["query"] if violations else ""))
     if violations:
         worst = min(violations, key=lambda x: (len(x["db"]["samples"]) + len(x["db"]["series"]), len(x["query"])))
@@ -321,7 +333,7 @@ def run_semantic(ck, text_cases, recases=None):
                                          % (theorem_evals, len(judged), len(mm))}, no_input=True)
     ck.coverage["evaluations"] += n_eval
     ck.coverage["distinct_nontrivial"] += len(nontrivial)
-    ck.coverage["rule"] += ("semantic layer: (query, ctx, database) triples; the implementation's SQL is evaluated twice (two tie-breakings) and judged by sem_b; "
+    ck.coverage["rule"] += ("semantic layer: (query, ctx, database) triples; the implementation's SQL is evaluated twice (two tie-breakings) and judged by sem3_b (= logql_sem3, spec_oracle3_decides); "
                             "non-trivial = the reference answer keeps some samples and drops others, or a LIMIT cuts it; distinct by content. ")
     ck.extra.setdefault("input_distribution", {})["cluster (WITH references printed inline)"] = sum(1 for i in res if byid[i]["ctx"].get("cluster"))
     ck.extra.setdefault("input_distribution", {})["plans"] = {
@@ -334,7 +346,8 @@ def run_semantic(ck, text_cases, recases=None):
     ck.extra.setdefault("input_distribution", {}).update({
         "semantic_search_query_classes (a query counts once per class it has)": classes,
         "fragment (no parser/drop)": sum(1 for v in res.values() if v["fragment"]),
-        "fragment2 (json/regexp/drop, any order)": sum(1 for v in res.values() if v["fragment2"])})
+        "fragment2 (json/regexp/drop, any order)": sum(1 for v in res.values() if v["fragment2"]),
+        "fragment3 (line_format: the line travels with the state)": sum(1 for v in res.values() if v["fragment3"])})
     ck.extra["sem_cases"] = {"evaluated_cases": len(res), "skipped": skipped,
                              "origins": {o: sum(1 for i in res if origin.get(i) == o) for o in ("gen", "text", "corpus")},
                              "guarded_evaluations": theorem_evals,
